@@ -9,11 +9,11 @@ def body(shape, k, sel, drain=None):
 
 
 INFO = {
-    'explanation': 'Bounded-history symbolic exploration (see C01 for the world). Events additionally include a dispatch tick with no free worker (units stay queued in the farm) and a new request for a unit that is already executing. Monitors after every event: no (algorithm, target) is in flight twice (messages at workers + messages queued in the farm); crew()[busy] equals the units handed to workers and not yet answered; every reply of an in-flight unit produces exactly one history record with its outcome/target/run id and exactly one call of schedule.update on success, none otherwise.',
+    'explanation': 'Bounded-history symbolic exploration (see C01 for the world). Events additionally include a dispatch tick with no free worker (units stay queued in the farm), a dispatch tick during which the database fails at its second run-id draw (farm.dispatch documents that the database may raise there), and a new request for a unit that is already executing. Monitors after every event: no (algorithm, target) is in flight twice (messages at workers + messages queued in the farm); crew()[busy] equals the units handed to workers and not yet answered; every reply of an in-flight unit produces exactly one history record with its outcome/target/run id and exactly one call of schedule.update on success, none otherwise.',
     'rule': 'one case = one event history; non-trivial = a worker reply was applied on it',
     'functions': ['pl.schedule.organize', 'pl.schedule.next_job_batch', 'pl.schedule.complete', 'pl.schedule.update', 'pl.schedule.purge',
                   'pl.schedule.find', 'pl.schedule.view_todo', 'pl.schedule.view_doing', 'pl.farm.dispatch', 'pl.farm._put', 'pl.farm.Hand._res', 'pl.farm.Hand.do', 'pl.farm.crew', 'pl.farm.rerunid', 'pl.dag.Construct (graph construction)'],
-    'bounds': {'quick': 'shapes G1,G2,G3,G5,G8,G9; histories of <=4 events (<=5 on G2)', 'thorough': 'shapes G1..G9,G11; histories of <=5 events (+ directed late-reply family with 3 free events)'},
+    'bounds': {'quick': 'shapes G1,G2,G3,G5,G8,G9,G13,G14 (independent analysis + task); histories of <=4 events (<=5 on G2)', 'thorough': 'shapes G1..G9,G11,G13,G14; histories of <=5 events (+ directed late-reply family with 3 free events)'},
     'assumptions': [
         'algorithm engine = in-memory classes registered through the real dawgie.base.Factories (SynthAE)',
         'dawgie.db.targets/next, chronicle.append, context.fsm (always active), context.dumps replaced by in-process fakes',
@@ -24,8 +24,8 @@ INFO = {
     'outside': ['histories longer than the bound', 'graphs with more than 4 algorithms', 'more than 2 targets', 'promotion enabled', 'cloud (AWS) agency'],
 }
 
-QUICK = ['G1', 'G2', 'G3', 'G5', 'G8', 'G9']
-THOROUGH = ['G1', 'G2', 'G3', 'G4', 'G5', 'G6', 'G7', 'G8', 'G9', 'G11']
+QUICK = ['G1', 'G2', 'G3', 'G5', 'G8', 'G9', 'G13', 'G14']
+THOROUGH = ['G1', 'G2', 'G3', 'G4', 'G5', 'G6', 'G7', 'G8', 'G9', 'G11', 'G13', 'G14']
 KQ = {s: 4 for s in QUICK}
 KQ['G2'] = 5
 KT = {s: 5 for s in THOROUGH}
